@@ -122,7 +122,7 @@ type jEvent struct {
 	Tx    bool     `json:"tx,omitempty"`
 	Fail  []jFail  `json:"fail,omitempty"`
 	Usage []jUsage `json:"usage,omitempty"`
-	Raw   string   `json:"raw,omitempty"` // t == "raw": datagram bytes (hex) sent as they are
+	Raw   string   `json:"raw,omitempty"`   // t == "raw": datagram bytes (hex) sent as they are
 	Panic *jFail   `json:"panic,omitempty"` // the driver PANICS at this call (stands for an IE accessor of the dependency reading past a malformed IE)
 }
 
@@ -483,6 +483,7 @@ func newFixture() (*fixture, error) {
 		if e != nil {
 			return nil, e
 		}
+		_ = c.SetReadBuffer(8 << 20) // a batch of 700 downlink data reports must fit into the receive queue
 		f.peers = append(f.peers, c)
 	}
 	a, _ := net.ResolveUDPAddr("udp4", f.prefix+"2:8805")
@@ -563,6 +564,10 @@ func nodeIE(prefix string, v *jIEVal) *ie.IE {
 	}
 	if v.Bad {
 		return ie.New(ie.NodeID, []byte{})
+	}
+	if *v.V >= 1000 {
+		// a node id nothing can be sent to from the loopback-bound PFCP socket (TEST-NET-1): every write to it fails
+		return ie.NewNodeID(fmt.Sprintf("192.0.2.%d", *v.V-1000), "", "")
 	}
 	return ie.NewNodeID(peerIP(prefix, int(*v.V)), "", "")
 }
